@@ -1392,6 +1392,8 @@ def external(src, attr):
         return Builtin('copy', lambda it, a, k: it.engine.shallowcopy(it, a[0]))
     if src == 'logging' and attr == 'getLogger':
         return Builtin('getLogger', lambda it, a, k: Obj('<logger>', {}))
+    if src == 'collections' and attr == 'OrderedDict':
+        return Obj('<OrderedDict-class>', {})
     if src == 'collections' and attr == 'namedtuple':
         return Builtin('namedtuple', lambda it, a, k: Obj('<namedtuple-class>', {'name': a[0], 'fields': a[1]}))
     if src == 'operator' and attr in ('attrgetter', 'itemgetter'):
@@ -1415,6 +1417,23 @@ def external(src, attr):
     return None
 
 
+def od_fromkeys(it, a, k):
+    """OrderedDict.fromkeys(iterable) for a concrete iterable of heap objects (classes without __eq__: equality is identity)
+    and None: first occurrence kept, order kept.  Anything else (symbolic scalars, strings) is refused."""
+    d = {}
+    for x in it.iterate(a[0]):
+        if isinstance(x, Opt):
+            raise Unsupported('OrderedDict.fromkeys over optional items (identity not decided)')
+        if x is not None and not isinstance(x, Obj):
+            raise Unsupported('OrderedDict.fromkeys over items that are not heap objects')
+        if isinstance(x, Obj):
+            ci = it.repo.find_class(x.cls) if isinstance(x.cls, str) and not x.cls.startswith('<') else None
+            if ci is None or it.find_method(ci, '__eq__') or it.find_method(ci, '__hash__'):
+                raise Unsupported('OrderedDict.fromkeys over objects whose equality is not known to be identity')
+        d.setdefault(x, a[1] if len(a) > 1 else None)
+    return d
+
+
 def obj_attr(it, o, name):
     if o.cls == '<nt>':
         if name == '_asdict':
@@ -1423,6 +1442,8 @@ def obj_attr(it, o, name):
             return Builtin('_replace', lambda it, a, k: Obj('<nt>', dict(o.fields, **k), label=o.label))
         if name == '_fields':
             return tuple(o.fields.keys())
+    if o.cls == '<OrderedDict-class>' and name == 'fromkeys':
+        return Builtin('OrderedDict.fromkeys', od_fromkeys)
     if o.cls == '<logger>':
         return Builtin('log', lambda it, a, k: None)
     if o.cls == '<type>' and name == '__name__':
